@@ -1,7 +1,7 @@
-//@ assume: Transaction is abstract; transaction::aggregate (decided in C12/aggregate) returns sp_agg(list) or an error; validity for mining (sp_valid) is the conjunction of three uninterpreted predicates, each established only by its own check: Transaction::validate(weighting) (sp_tx_valid), the chain adapter's validate_tx against the UTXO set (sp_chain_ok) and apply_tx_to_block_sums at `header` (sp_sums_ok); Pool::validate_raw_tx is the REAL text, verified here to establish all three; one error type; bucket_transactions (ordering heuristics) and the chain adapter are abstract
+//@ assume: Transaction is abstract; transaction::aggregate (decided in C12/aggregate) returns sp_agg(list) or an error; validity for mining (sp_valid) is the conjunction of FIVE uninterpreted predicates (tx.validate, chain UTXO validity, block sums, and -- taken from the property's 'a block ... that the chain accepts' -- lock heights reached and spent coinbases mature at the next block), each established only by its own check: Transaction::validate(weighting) (sp_tx_valid), the chain adapter's validate_tx against the UTXO set (sp_chain_ok) and apply_tx_to_block_sums at `header` (sp_sums_ok); Pool::validate_raw_tx is the REAL text, verified here to establish all three; one error type; bucket_transactions (ordering heuristics) and the chain adapter are abstract
 //@ assume: T6: `vec![]` => Vec::new(); `extra_tx.clone()` on the Option => clone_opt; `candidate_txs.extend(valid_txs.clone())` => extend_copy (appends a copy); `tx.clone()` => the element copied; `txs.extend(extra_tx)` => extend_opt; `for tx in txs` => slice iterator form; `self.entries.iter().map(|x| x.tx.clone()).collect()` => entries_txs (the pool's transactions in order)
 //@ assume: decided here (C14, 'the set offered for mining always assembles into a block within the weight limit that the chain accepts' / 'can all be applied together'): Pool::validate_raw_txs returns a SUBSEQUENCE of the candidates such that, whenever it is non-empty, the aggregate of (extra tx, then exactly the returned transactions) passed validate_raw_tx against `header` under `weighting` -- the last accepted candidate was validated together with everything kept before it; Pool::prepare_mineable_transactions is validate_raw_txs over the bucketed pool with no extra tx, the chain head and the weight limit AsLimitedTransaction(max_weight); Pool::all_transactions_aggregate returns the aggregate of all pool transactions followed by the extra one, validated with no weight limit (or just the extra tx for an empty pool)
-//@ assumed_items: 11
+//@ assumed_items: 13
 //@ fns: Pool::validate_raw_tx, Pool::validate_raw_txs, Pool::prepare_mineable_transactions, Pool::all_transactions_aggregate
 #[derive(Clone, Copy, PartialEq, Eq)]
 pub struct Transaction { pub id: u64 }
@@ -14,8 +14,16 @@ pub uninterp spec fn sp_agg(txs: Seq<Transaction>) -> Result<Transaction, PoolEr
 pub uninterp spec fn sp_tx_valid(t: Transaction, w: Weighting) -> bool;
 pub uninterp spec fn sp_chain_ok(c: Chain, t: Transaction) -> bool;
 pub uninterp spec fn sp_sums_ok(p: Pool, t: Transaction, h: BlockHeader) -> bool;
+/// every lock height of the tx is reached by the NEXT block on the current head / every coinbase it spends from the chain is mature at the next block
+/// (both are relative to the head, which a reorganisation can LOWER: they must hold whenever the pool is validated, not only at admission)
+pub uninterp spec fn sp_locks_ok(c: Chain, t: Transaction) -> bool;
+pub uninterp spec fn sp_mature_ok(c: Chain, i: Inputs) -> bool;
+pub struct Inputs { pub of: Ghost<u64> }
 /// valid for mining: the tx itself under the weight rule, its inputs / outputs against the chain's UTXO set, and the block sums at `h`
-pub open spec fn sp_valid(p: Pool, agg: Transaction, h: BlockHeader, w: Weighting) -> bool { sp_tx_valid(agg, w) && sp_chain_ok(p.blockchain, agg) && sp_sums_ok(p, agg, h) }
+pub open spec fn sp_valid(p: Pool, agg: Transaction, h: BlockHeader, w: Weighting) -> bool {
+    sp_tx_valid(agg, w) && sp_chain_ok(p.blockchain, agg) && sp_sums_ok(p, agg, h)
+    && sp_locks_ok(p.blockchain, agg) && sp_mature_ok(p.blockchain, Inputs { of: Ghost(agg.id) })
+}
 pub open spec fn sp_valid_nolimit(t: Transaction) -> bool { sp_tx_valid(t, Weighting::NoLimit) }
 pub struct BlockSums { pub id: u64 }
 pub uninterp spec fn sp_bucketed(p: Pool, w: Weighting) -> Seq<Transaction>;
@@ -26,6 +34,7 @@ pub mod transaction { use super::*;
 impl Transaction {
     #[verifier::external_body]
     pub fn validate(&self, w: Weighting) -> (r: Result<(), PoolError>) ensures r.is_ok() ==> sp_tx_valid(*self, w) { unimplemented!() }
+    pub fn inputs(&self) -> (r: Inputs) ensures r == (Inputs { of: Ghost(self.id) }) { Inputs { of: Ghost(self.id) } }
 }
 #[verifier::external_body]
 fn clone_opt(t: &Option<Transaction>) -> (r: Option<Transaction>) ensures r == *t { unimplemented!() }
@@ -37,6 +46,8 @@ fn extend_opt(v: &mut Vec<Transaction>, more: Option<Transaction>) ensures final
 pub struct Chain { _p: u8 }
 impl Chain {
     #[verifier::external_body] pub fn validate_tx(&self, tx: &Transaction) -> (r: Result<(), PoolError>) ensures r.is_ok() ==> sp_chain_ok(*self, *tx) { unimplemented!() }
+    #[verifier::external_body] pub fn verify_tx_lock_height(&self, tx: &Transaction) -> (r: Result<(), PoolError>) ensures r.is_ok() ==> sp_locks_ok(*self, *tx) { unimplemented!() }
+    #[verifier::external_body] pub fn verify_coinbase_maturity(&self, inputs: &Inputs) -> (r: Result<(), PoolError>) ensures r.is_ok() ==> sp_mature_ok(*self, *inputs) { unimplemented!() }
     #[verifier::external_body] pub fn chain_head(&self) -> (r: Result<BlockHeader, PoolError>) ensures r matches Ok(h) ==> h == sp_chain_head(*self) { unimplemented!() } }
 pub struct Pool { pub blockchain: Chain, pub txs: Ghost<Seq<Transaction>> }
 pub open spec fn with_extra(extra: Option<Transaction>, s: Seq<Transaction>) -> Seq<Transaction> { match extra { Some(t) => seq![t] + s, None => s } }
